@@ -1,21 +1,32 @@
 #!/bin/sh
 # Applies every seeded mutant to a scratch copy of /repo and runs the check of
-# its property; prints one line per mutant: <id> <DETECTED|MISSED|NOAPPLY|NOCHECK> <first violation key>
+# its property (6 at a time); prints one line per mutant:
+# <id> <DETECTED|MISSED|NOAPPLY|NOCHECK> <first violation line>
 cd /verif
 export GOFLAGS=-mod=mod GOPROXY=off GOSUMDB=off GOTOOLCHAIN=local GOWORK=off
-for d in seeded/*/; do
+OUT=$(mktemp -d /var/tmp/mx.XXXXXX)
+one() {
+  d=$1
   id=$(basename "$d")
   prop=$(python3 -c "import json;print(json.load(open('$d/meta.json'))['property'])")
-  if ! python3 -c "import json,sys;sys.exit(0 if any(c['property_id']=='$prop' for c in json.load(open('MANIFEST.json'))['checks']) else 1)"; then echo "$id NOCHECK"; continue; fi
+  if ! python3 -c "import json,sys;sys.exit(0 if any(c['property_id']=='$prop' for c in json.load(open('MANIFEST.json'))['checks']) else 1)"; then echo "$id NOCHECK" > "$OUT/$id"; return; fi
   D=$(mktemp -d /var/tmp/mut.XXXXXX)
   rsync -a --exclude .git /repo/ "$D/"
-  if ! (cd "$D" && patch -p1 -s --no-backup-if-mismatch < "/verif/$d/patch.diff" >/dev/null 2>&1); then echo "$id NOAPPLY"; rm -rf "$D"; continue; fi
+  if ! (cd "$D" && patch -p1 -s --no-backup-if-mismatch < "/verif/$d/patch.diff" >/dev/null 2>&1); then echo "$id NOAPPLY" > "$OUT/$id"; rm -rf "$D"; return; fi
   out=$(/verif/bin/stackcheck -verif "$D" -repo "$D" -prop "$prop" -evidence "$D/ev.json" 2>&1)
   rc=$?
   if [ $rc -eq 1 ]; then
-    echo "$id DETECTED $(echo "$out" | grep -E '\[(violated|undecided)\]' | head -1 | sed "s#$D#SCRATCH#g" | cut -c1-160)"
+    echo "$id DETECTED $(echo "$out" | grep -E '\[(violated|undecided)\]' | grep -v 'L5 ' | grep -v '<floor>' | head -1 | sed "s#$D#SCRATCH#g" | cut -c1-160)" > "$OUT/$id"
   else
-    echo "$id MISSED"
+    echo "$id MISSED" > "$OUT/$id"
   fi
   rm -rf "$D"
+}
+N=0
+for d in seeded/C*/; do
+  one "${d%/}" &
+  N=$((N+1)); [ $((N % 6)) -eq 0 ] && wait
 done
+wait
+cat "$OUT"/* | sort
+rm -rf "$OUT"
